@@ -585,16 +585,14 @@ def mutant_fanout_first_only(w: World):
             raise ValueError("type")
         for s in self.core._subscribers.get(self.topic, [])[:1]:
             s.callback(msg)
-    w._saved_orig = uros_rec._orig_publish
-    uros_rec._orig_publish = bad
+    uros_rec.MUTANT_PUBLISH = bad
 
 
 def mutant_no_typecheck(w: World):
     def bad(self, msg):
         for s in self.core._subscribers.get(self.topic, []):
             s.callback(msg)
-    w._saved_orig = uros_rec._orig_publish
-    uros_rec._orig_publish = bad
+    uros_rec.MUTANT_PUBLISH = bad
 
 
 def mutant_logger_nocopy(w: World):
@@ -605,8 +603,7 @@ def mutant_logger_nocopy(w: World):
 
 
 def restore_mutant(w):
-    if hasattr(w, "_saved_orig") and uros_rec._orig_publish is not None:
-        uros_rec._orig_publish = w._saved_orig
+    uros_rec.MUTANT_PUBLISH = None
     if hasattr(w, "_saved_copy"):
         w.uros.copy = w._saved_copy
 
@@ -956,6 +953,12 @@ def selftest(run, seed):
                 mut(w)
             try:
                 w = random_world(random.Random(s), acyclic, mutate=m)
+            except MachineryError:
+                raise
+            except BaseException as e:          # a mutant may make a callback raise: the trace so far still counts
+                w = box["w"]
+                w.close()
+                found.add("crash/" + type(e).__name__)
             finally:
                 restore_mutant(box["w"]) if "w" in box else None
             found |= {key for key, _ in w.check_props() + w.final_log_check()}
@@ -979,23 +982,11 @@ def selftest(run, seed):
     results["mutant logger without deepcopy"] = f"flagged {sorted(k for k in f3 if k.startswith('logger/'))}"
     # engine B must flag the first mutant too (model vs code)
     steps = _fixed_behaviour()
-    w = None
-    saved = None
     try:
-        uros_rec._install(__import__("cyecca.sim.uros", fromlist=["x"]))
-        saved = uros_rec._orig_publish
-
-        def bad(self, msg):
-            if not isinstance(msg, self.msg_type):
-                raise ValueError("type")
-            for s in self.core._subscribers.get(self.topic, [])[:1]:
-                s.callback(msg)
-        uros_rec._orig_publish = bad
+        mutant_fanout_first_only(None)
         probs, _ = replay_behaviour(steps)
     finally:
-        if uros_rec._orig_publish is not None and saved is not None:
-            uros_rec._orig_publish = saved
-        uros_rec._uninstall(__import__("cyecca.sim.uros", fromlist=["x"]))
+        restore_mutant(None)
     if not probs:
         raise MachineryError("selftest: engine B did not flag the first-subscriber-only fan-out")
     results["engine B on mutant fan-out"] = f"flagged {probs[0][0]}"
